@@ -66,7 +66,7 @@ class Engine:
     def _weights(self, profile):
         base = dict(
             new_netlist=1, create_library=2, add_library=1, remove_library=1, remove_libraries_from=1, set_libraries=1,
-            new_orphan=3, create_definition=3, add_definition=1, remove_definition=1, remove_definitions_from=1,
+            new_orphan=3, new_shape_sibling=2, create_definition=3, add_definition=1, remove_definition=1, remove_definitions_from=1,
             set_definitions=1, create_port=4, add_port=2, remove_port=2, remove_ports_from=1, set_ports=1,
             create_pin=2, create_pins=1, add_pin=1, remove_pin=2, remove_pins_from=1, set_pins=1,
             create_cable=4, add_cable=1, remove_cable=1, remove_cables_from=1, set_cables=1,
@@ -188,10 +188,14 @@ class Engine:
 
     def _setter(self, obj, attr, label, pool):
         L, st = self._perm(getattr(obj, attr), pool)
+        form = self.r.choice(["list", "list", "tuple", "iterator", "generator", "reversed"])
 
         def fn():
-            setattr(obj, attr, L)
-        return Op(label, fn, "%s=(%s,%d)" % (attr, st, len(L)), st, obj, (L,))
+            # the documented argument is "a reordered list"; any iterable is accepted by the setters
+            v = {"list": lambda: L, "tuple": lambda: tuple(L), "iterator": lambda: iter(L),
+                 "generator": lambda: (x for x in L), "reversed": lambda: reversed(L[::-1])}[form]()
+            setattr(obj, attr, v)
+        return Op(label, fn, "%s=(%s,%d,%s)" % (attr, st, len(L), form), st, obj, (L,))
 
     def op_set_libraries(self):
         n = self.pick(self.u.netlists)
@@ -220,6 +224,25 @@ class Engine:
         if k == 5:
             return Op("InnerPin()", lambda: sdn.InnerPin(), "InnerPin()", "valid")
         return Op("Wire()", lambda: sdn.Wire(), "Wire()", "valid")
+
+    def op_new_shape_sibling(self):
+        """A fresh definition with the port shape of an existing one - identical, or differing only in its LAST port:
+        makes shape-compatible re-points and late shape mismatches frequent."""
+        cands = [d for d in self.u.defs if len(d.ports) >= 1]
+        if not cands or len(self.u.defs) > 14:
+            return None
+        src = self.pick(cands)
+        widths = [len(p.pins) for p in src.ports]
+        same = self.r.random() < 0.5
+        if not same:
+            widths[-1] += 1
+
+        def mk():
+            d = sdn.Definition()
+            for w in widths:
+                d.create_port(pins=w or None)
+            return d
+        return Op("Definition()", mk, "Definition(shape sibling,%s)" % ("same" if same else "last port wider"), "valid")
 
     # ------------------------------------------------------------------ definitions in libraries
     def op_create_definition(self):
@@ -544,8 +567,14 @@ class Engine:
             if compat and not self.invalid():
                 ref, st = self.pick(compat), "compatible"
             else:
-                ref = self.pick(self.u.defs)
-                st = "random"
+                # same port count, widths differ in a LATER port: the refusal must come before any pin is re-keyed
+                late = [d for d in self.u.defs if cur is not None and len(self.shape(d)) == len(self.shape(cur)) >= 2 and
+                        self.shape(d) != self.shape(cur) and self.shape(d)[0] == self.shape(cur)[0]]
+                if late and self.r.random() < 0.5:
+                    ref, st = self.pick(late), "late-width-mismatch"
+                else:
+                    ref = self.pick(self.u.defs)
+                    st = "random"
         if k >= 0.2 and ref is None:
             return None
         if self.r.random() < 0.1 and ref is None:
